@@ -182,6 +182,8 @@ func C01(tier rt.Tier) int {
 		}
 		sizeSweep(rep, "map-behaviour", lens, []StoreKind{Mem, LevelP}, 1, nil, nil)
 		widthSweep(rep, "map-behaviour", []StoreKind{Mem, LevelP}, 1, nil)
+		twoLevelSweep(rep, "map-behaviour", Mem, 1, nil)
+		byteSweep(rep, "map-behaviour", []StoreKind{Mem, LevelP}, 1, nil)
 	}
 	rep.Set("rule", "BFS over all histories of the listed alphabets on a fresh real trie per history (replay); after every operation: return value/error judged against map model, every alphabet path looked up (raw and decoded), full value iteration compared; states merged on (model content, root, version, pending change set, writable-store keys); non-trivial = distinct merged state")
 	rep.Assumption("RocksDB is replaced by an in-memory write-log stand-in (third_party/grocksdb); PNodeDB's own code is real")
